@@ -38,7 +38,7 @@ def run(tier, seed):
     n = 6 if tier == "quick" else 40
     for i, (pc, mp) in enumerate(configs):
         tf = d / f"pool-{i}.ndjson"
-        p = vlib.run_driver(drv, ["pool", "-seed", seed * 10 + i, "-n", n, "-steps", 8, "-out", tf, "-pc", pc, "-maxpool", mp], timeout=2400)
+        p = vlib.run_driver(drv, ["pool", "-seed", seed * 10 + i, "-n", n, "-steps", 8, "-out", tf, "-pc", pc, "-maxpool", mp], timeout=2400, env_extra=vlib.trace_env("Trace_FrpsWorkPool"))
         sc.parse_stats(p.stdout, stats)
         cfg = base.replace("PoolCount = 1", f"PoolCount = {min(pc, mp)}")
         if not sc.validate(v, "Trace_FrpsWorkPool", cfg, tf, f"pool[poolCount={pc},maxPoolCount={mp}]"):
